@@ -100,7 +100,15 @@ fn main() {
             let mut counters = engine::Counters::default();
             let o = runner::RunOpts { prop: &prop, tier, record: true, outcomes: false, lifted: &lifted };
             let out = runner::run_once(&o, &mut ch, &mut counters);
-            println!("{}", J::obj().with("lanes", runner::lanes_json(&out.lanes)).with("events", J::arr(out.lines.iter().map(|s| J::str(s.clone())))).to_string());
+            println!("{}", J::obj().with("lanes", runner::lanes_json(&out.lanes)).with("events", J::arr(out.lines.iter().map(|s| J::str(s.clone())))).with("scenario", J::arr(out.scenario.iter().map(|s| J::str(s.clone())))).to_string());
+            if let Some(f) = arg_val(&args, "--tape-file") {
+                // replay a given tape instead of the seed (shows the scenario of a minimised crash replay)
+                let text = std::fs::read_to_string(f).expect("tape file");
+                let j = J::parse(&text).expect("parse");
+                let lanes = runner::lanes_from_json(j.get("lanes").expect("lanes"));
+                let out = runner::replay_tape(&prop, tier, lanes, &lifted);
+                println!("{}", J::obj().with("scenario", J::arr(out.scenario.iter().map(|s| J::str(s.clone())))).with("events", J::arr(out.lines.iter().map(|s| J::str(s.clone())))).to_pretty());
+            }
         }
         "minimize" => {
             // sim minimize <in> <out>: shrink the tape while the same signature persists
